@@ -287,7 +287,12 @@ func genMixedUniverse(t *rapid.T) *ugen.Universe {
 		}
 		props := jv.ObjV()
 		for i, k := 0, 1+n(3, "nmidrefs"); i < k; i++ {
-			props.Set([]string{"x", "y", "z"}[i], jv.ObjV(jv.Member{K: "$ref", V: jv.StrV(targets[n(4, "midtarget")])}))
+			kw := "$ref"
+			if n(4, "middynamic") == 0 {
+				// a 2020-12 keyword whatever the document declares: followed or not by the ROOT's draft
+				kw = "$dynamicRef"
+			}
+			props.Set([]string{"x", "y", "z"}[i], jv.ObjV(jv.Member{K: kw, V: jv.StrV(targets[n(4, "midtarget")])}))
 		}
 		d.Set("properties", props)
 		return d
